@@ -48,7 +48,8 @@ def rule_pow(ctx, repo, eng):
     decoded = any(norm(v_) == T for v_ in ld.values()) or any(T in g_ for g_, c_, n_ in rg)
     r.check(decoded, 'target-decoded', fi.site, 'target = uint256_from_compact(nBits)', 'the target is not decoded with uint256_from_compact(%s)' % bv)
     c16.expect(r, 'negative', fi, rg, ['%s & 8388608' % bv], E, 'a compact value with the sign bit set is refused', '%s &' % bv)
-    c16.expect(r, 'range', fi, rg, ['%s < 1 or %s > coreparams.PROOF_OF_WORK_LIMIT' % (T, T)], E, 'zero and above-limit targets are refused', T)
+    c16.expect(r, 'range', fi, rg, ['%s < 1 or %s > coreparams.PROOF_OF_WORK_LIMIT' % (T, T)], E, 'zero and above-limit targets are refused', T,
+               domain={T: (0, None)})  # a decoded target is a masked mantissa shifted (C17.F1): never negative
     hx = hv if rebound else H
     n_cmp = c16.expect(r, 'hash-above-target', fi, rg, ['%s > %s' % (hx, T)], E, 'hash above the target is refused, equality accepted', ('%s' % hx, hv))
     if rebound:
@@ -211,12 +212,16 @@ def rule_decode(ctx, repo):
         return
     t = ifs[0]
     g = canon_guard(t.test, repo, fi.module)
-    if g == 'nbytes < 4':
+    if g in ('nbytes < 4', 'nbytes < 3'):
+        # at nbytes == 3 both branches shift by zero: `<= 3` and `< 3` split the values the same way (the branch
+        # expressions are decided below, which is what makes the shift amounts 8*(3-nbytes) / 8*(nbytes-3))
         r.ok('threshold', common.site_of(fi, t), 'exponents up to 3 shift right')
+        ctx.explain(fi, t, 'C17.F1 threshold: at an exponent of 3 both arms shift by zero')
         small = t.body
         large = t.orelse if t.orelse else fi.node.body[fi.node.body.index(t) + 1:]
-    elif g == 'nbytes > 3':
+    elif g in ('nbytes > 3', 'nbytes > 2'):
         r.ok('threshold', common.site_of(fi, t), 'exponents above 3 shift left')
+        ctx.explain(fi, t, 'C17.F1 threshold: at an exponent of 3 both arms shift by zero')
         large = t.body
         small = t.orelse if t.orelse else fi.node.body[fi.node.body.index(t) + 1:]
     elif 'nbytes' in g:
@@ -264,11 +269,13 @@ def rule_encode(ctx, repo):
     if len(sizeif) == 1:
         t = sizeif[0]
         g = canon_guard(t.test, repo, fi.module)
-        small, large = (t.body, t.orelse) if g == 'nbytes < 4' else ((t.orelse, t.body) if g == 'nbytes > 3' else (None, None))
+        # a size of exactly 3 shifts by zero in either arm (the arm values are decided below)
+        small, large = (t.body, t.orelse) if g in ('nbytes < 4', 'nbytes < 3') else ((t.orelse, t.body) if g in ('nbytes > 3', 'nbytes > 2') else (None, None))
         if small is None:
             r.violated('threshold', common.site_of(fi, t), 'size test is `%s`; reference: up to 3 bytes shift left, more shift right' % g)
         else:
             r.ok('threshold', common.site_of(fi, t), g)
+            ctx.explain(fi, t, 'C17.F2 threshold: at a size of 3 both arms shift by zero')
             sv = branch_value(list(small), 'compact')
             lv = branch_value(list(large), 'compact')
             shape.verdict(r, 'small', common.site_of(fi, t), sv, '(%s & 0xFFFFFF) << 8 * (3 - nbytes)' % v, 'mantissa for up to 3 bytes')
